@@ -272,38 +272,36 @@ func c16StoreMeansStored(c *Ctx) {
 			inner = append(inner, call)
 		}
 	}
+	// every return that may report success lies on a path that called the inner store (that the
+	// inner error is then honoured is C14.errors); paths are the feasible ones under nil-facts
+	h := an.THooks{Instr: func(in ssa.Instruction, st an.TState) an.TState {
+		if cl, ok := in.(ssa.CallInstruction); ok {
+			for _, ic := range inner {
+				if ic == cl {
+					return ackState{set: true}
+				}
+			}
+		}
+		return st
+	}}
+	exits := an.WalkTypestate(fn, ackState{}, h, c.Scope(fn))
 	k := 0
-	for _, b := range fn.Blocks {
-		ret, ok := b.Instrs[len(b.Instrs)-1].(*ssa.Return)
-		if !ok {
+	seen := map[string]bool{}
+	for _, ex := range exits {
+		if ex.ErrNil == 0 {
 			continue
 		}
-		rv := an.RetErr(ret)
-		// "return e.Persist.Store(...)": the inner call's own result
-		direct := false
-		for _, ic := range inner {
-			if ic.Value() != nil && rv == ssa.Value(ic.Value()) {
-				direct = true
-			}
-		}
-		if direct || !an.IsNilConst(rv) {
-			if direct {
-				k++
-				c.R.OK(rule, fmt.Sprintf("%s: return #%d is the inner store's result", name, k), c.P.Pos(ret.Pos()), "success means the PUT succeeded")
-			}
+		key := c.P.Pos(ex.Ret.Pos())
+		stored := ex.St.(ackState).set
+		if seen[key] && stored {
 			continue
 		}
+		seen[key] = true
 		k++
-		after := false
-		for _, ic := range inner {
-			if okS, _ := an.SuccessDominates(ic, ret); okS {
-				after = true
-			}
-		}
-		c.R.Cond(after, rule, fmt.Sprintf("%s: nil return #%d only after the inner store succeeded", name, k), c.P.Pos(ret.Pos()),
-			"dominated by the success of the inner Store", "Store can report success without having stored the object in this call: a commit is acknowledged although a node it refers to was never uploaded")
+		c.R.Cond(stored, rule, fmt.Sprintf("%s: success return #%d only after the inner store", name, k), key,
+			"every feasible path to this (possibly successful) return called the inner Store", "Store can report success without having stored the object in this call: a commit is acknowledged although a node it refers to was never uploaded")
 	}
-	if k == 0 {
+	if k == 0 || len(inner) == 0 {
 		c.R.Unk(rule, name+": returns", c.P.Pos(fn.Pos()), "no return found that reports the inner store's outcome")
 	}
 }
